@@ -32,12 +32,14 @@ def _int_type(name, bits, dcal=None):
 
 
 @st.composite
-def gen_blob_doc(draw):
+def gen_blob_doc(draw, focus=None):
+    """focus="term": only terminated strings, UTF-8 and the 4-byte character sets weighted up, buffers long enough
+    for a straddling pair plus a terminator (the sub-domain where the search position matters)."""
     names = list(pk.HEADER_NAMES)
     types = [_int_type(n, w) for n, w in zip(pk.HEADER_NAMES, pk.HEADER_WIDTHS)]
     fields = []
     offset = draw(st.integers(0, 7))
-    is_str = draw(st.booleans())
+    is_str = True if focus else draw(st.booleans())
     form = draw(st.sampled_from(["fixed", "dyn", "dyn", "lookup"]))
     if form in ("dyn", "lookup"):
         types.append(_int_type("LEN", draw(st.sampled_from([8, 8, 6, 4, 3]))))
@@ -54,6 +56,8 @@ def gen_blob_doc(draw):
     lo = 1 if is_str else 0
 
     def bits_value():
+        if focus and draw(st.booleans()):
+            return 8 * draw(st.integers(6, 24))
         return draw(st.one_of(st.integers(lo, 12).map(lambda x: 8 * x), st.integers(lo, 40), st.integers(lo, 400)))
     if form == "fixed":
         ln = {"t": "fixed", "bits": max(1, bits_value())}
@@ -91,10 +95,10 @@ def gen_blob_doc(draw):
                             "value": max(1, bits_value())})
         ln = {"t": "lookup", "entries": entries}
     if is_str:
-        cs = draw(st.sampled_from(list(xdoc.CHARSETS)))
+        cs = draw(st.sampled_from(list(xdoc.CHARSETS) + (["UTF-8"] * 4 + ["UTF-32", "UTF-16"] if focus else [])))
         enc = {"k": "str", "charset": cs, "order": draw(st.sampled_from([xgen.BE, xgen.LE])) if cs in xdoc.MULTIBYTE else None,
                "len": ln, "delim": None}
-        kind = draw(st.sampled_from(["none", "term", "term", "lead", "lead"]))
+        kind = "term" if focus else draw(st.sampled_from(["none", "term", "term", "lead", "lead"]))
         if kind == "term":
             ch = draw(st.sampled_from(["\x00", "!", ";", "\n", "X", "\u00e9", "\u20ac", "\u2603", "\u2100"]))
             try:
@@ -149,6 +153,19 @@ def check_case(ctx, case):
         ctx.cls("packet " + ex.label())
         if ex.res.unspecified:
             ctx.cls("unspecified (not asserted): " + ex.res.unspecified.split(":")[0])
+        if cell and ex.kind == "yield" and cell[1]["k"] == "str" and (cell[1].get("delim") or {}).get("t") == "term":
+            # would a search at the wrong positions give another answer? (terminator found by the documented
+            # search vs by a byte-wise search vs by a search stepping the terminator's own width)
+            raw = [r for n, _, r in ex.res.items if n == "BLOB"]
+            t = bytes.fromhex(cell[1]["delim"]["hex"])
+            if raw and isinstance(raw[0], bytes):
+                def first(step):
+                    return next((i for i in range(0, len(raw[0]) - len(t) + 1, step) if raw[0][i:i + len(t)] == t), None)
+                ref = first(1 if cell[1]["charset"] == "UTF-8" else len(t))
+                if first(1) != ref:
+                    ctx.cls("terminator: a byte-wise search would stop earlier")
+                if first(len(t)) != ref:
+                    ctx.cls("terminator: a search stepping the terminator's width would miss it")
         for name, ln, form in ex.res.lengths:
             if name == "BLOB":
                 nontriv = (cell and cell[2] != 0) or ln % 8 != 0 or form != "fixed" or \
@@ -175,8 +192,8 @@ def check_case(ctx, case):
 
 
 @st.composite
-def gen_case(draw, template=True):
-    doc = draw(gen_blob_doc()) if template else draw(xgen.gen_doc("blobs"))
+def gen_case(draw, template=True, focus=None):
+    doc = draw(gen_blob_doc(focus)) if template else draw(xgen.gen_doc("blobs"))
     model = xref.Model(doc)
     n = draw(st.integers(2, 6))
     packets = [draw(xgen.gen_packet(doc, mutate=False, model=model)).hex() for _ in range(n)]
@@ -184,19 +201,22 @@ def gen_case(draw, template=True):
             "opts": draw(c01.gen_opts())}
 
 
-def part_generated(ctx, examples, template=True):
-    hyp_run(ctx, gen_case(template), check_case, examples, shrink_budget=80 if ctx.tier == "quick" else 800, rounds=2)
+def part_generated(ctx, examples, template=True, focus=None):
+    hyp_run(ctx, gen_case(template, focus), check_case, examples, shrink_budget=80 if ctx.tier == "quick" else 800, rounds=2)
 
 
 PARTS = {"generated": part_generated}
 REPLAY = {"generated": check_case}
 KNOWN = {}
-FLOORS = {"nontrivial": ("", 0.3), "packet clean": ("", 0.1), "length not a whole number of bytes": ("", 0.1)}
+FLOORS = {"nontrivial": ("", 0.3), "packet clean": ("", 0.1), "length not a whole number of bytes": ("", 0.1),
+          "terminator: a byte-wise search would stop earlier": ("", 0.002),
+          "terminator: a search stepping the terminator's width would miss it": ("", 0.002)}
 
 
 def plan(tier, seed):
     q = tier == "quick"
     tasks = []
     for i in range(16):
-        tasks.append(("generated", {"examples": 250 if q else 5000, "template": i % 4 != 3}))
+        tasks.append(("generated", {"examples": 250 if q else 5000, "template": i % 4 != 3,
+                                    "focus": "term" if i % 4 == 2 else None}))
     return tasks
